@@ -125,10 +125,10 @@ def addAssignDD (a b : List F) : List F :=
     let a' := if b.length > a.length then resize a b.length else a
     truncate (zipInto (· + ·) a' b)
 
-/-- `Dense += (f, &Dense)` — the zero-`self` branch returns without truncating -/
+/-- `Dense += (f, &Dense)` — the zero-`self` branch copies, scales and truncates (`f` may be zero) -/
 def addAssignScaledDD (a : List F) (f : F) (b : List F) : Outcome (List F) :=
   if isZero b then .ok a
-  else if isZero a then .ok (b.map (fun c => c * f))
+  else if isZero a then .ok (truncate (b.map (fun c => c * f)))
   else do
     let da ← degree a
     let db ← degree b
@@ -217,20 +217,23 @@ def mulDD (twoAdicity : Nat) (a b : List F) : Outcome (List F) :=
   else if !domainExists twoAdicity (a.length + b.length - 1) then .panic
   else .ok (fromCoefficientsVec (mulCoeffs a b))
 
-/-- `mul_by_vanishing_poly(domain)`: only `domain.size()` is used (`X^n − 1`, whatever the coset) -/
-def mulByVanishingPoly (a : List F) (n : Nat) : List F :=
-  fromCoefficientsVec (zipInto (· - ·) (List.replicate n 0 ++ a) a)
+/-- `mul_by_vanishing_poly(domain)` with `n = domain.size()`, `c = domain.coset_offset_pow_size()`:
+    `self · (X^n − c)` -/
+def mulByVanishingPoly (a : List F) (n : Nat) (c : F) : List F :=
+  fromCoefficientsVec (zipInto (fun s x => s - x * c) (List.replicate n 0 ++ a) a)
 
-/-- `divide_by_vanishing_poly(domain)`: only `domain.size()` is used; the `len < n` branch
-    returns `self.clone()` untruncated -/
-def divideByVanishingPoly (a : List F) (n : Nat) : Outcome (List F × List F) :=
+/-- `divide_by_vanishing_poly(domain)` with `n = domain.size()`, `c = domain.coset_offset_pow_size()`:
+    division by `X^n − c`; the `len < n` branch returns `self.clone()` untruncated -/
+def divideByVanishingPoly (a : List F) (n : Nat) (c : F) : Outcome (List F × List F) :=
   if a.length < n then .ok ([], a)
   else if n = 0 then .panic                  -- `self.len() / domain_size`
   else
     let q0 := a.drop n
-    let q := (List.range (a.length / n - 1)).foldl
-      (fun q k => zipInto (· + ·) q (a.drop (n * (k + 2)))) q0      -- i = k + 1 ∈ 1..len/n
-    let r := zipInto (· + ·) (a.take n) q
+    let (q, _) := (List.range (a.length / n - 1)).foldl
+      (fun (st : List F × F) k =>                                   -- i = k + 1 ∈ 1..len/n
+        let op := st.2 * c                                          -- `offset_pow *= offset_pow_size`
+        (zipInto (fun s x => s + x * op) st.1 (a.drop (n * (k + 2))), op)) (q0, (1 : F))
+    let r := zipInto (fun s x => s + x * c) (a.take n) q
     .ok (fromCoefficientsVec q, fromCoefficientsVec r)
 
 /-! ## SparsePolynomial -/
@@ -247,14 +250,6 @@ def sDegree (s : Terms F) : Outcome Nat :=
     | some t => if t.2 = 0 then .panic else .ok t.1
     | none => .panic
 
-/-- pop while the last stored coefficient is zero -/
-def sPopZeros : Terms F → Terms F
-  | [] => []
-  | t :: ts =>
-    match sPopZeros ts with
-    | [] => if t.2 = 0 then [] else [t]
-    | u :: us => t :: u :: us
-
 /-- insertion step of a stable sort by degree -/
 def insertTerm (t : Nat × F) : Terms F → Terms F
   | [] => [t]
@@ -263,14 +258,20 @@ def insertTerm (t : Nat × F) : Terms F → Terms F
 /-- `coeffs.sort_by(|(c1, _), (c2, _)| c1.cmp(c2))` (stable) -/
 def sortTerms (l : Terms F) : Terms F := l.foldl (fun acc t => insertTerm t acc) []
 
-/-- `SparsePolynomial::from_coefficients_vec` / `_slice`: pop trailing zeros (of the *unsorted*
-    vector), sort by degree, assert that the last coefficient is non-zero.  Zero terms in the
-    middle are kept, equal degrees are not merged. -/
-def sFromCoefficientsVec (v : Terms F) : Outcome (Terms F) :=
-  let s := sortTerms (sPopZeros v)
-  match s.getLast? with
-  | none => .ok s
-  | some t => if t.2 = 0 then .panic else .ok s
+/-- the "combine like terms" loop: add a term to the last pushed one when the degrees agree
+    (`acc` is the `combined` Vec, newest entry last) -/
+def combineTerms : Terms F → Terms F → Terms F
+  | acc, [] => acc
+  | acc, t :: ts =>
+    match acc.getLast? with
+    | some l => if l.1 = t.1 then combineTerms (acc.dropLast ++ [(l.1, l.2 + t.2)]) ts
+                else combineTerms (acc ++ [t]) ts
+    | none => combineTerms [t] ts
+
+/-- `SparsePolynomial::from_coefficients_vec` / `_slice`: stable sort by degree, combine equal
+    degrees, `retain` the non-zero terms.  Total: no assertion is left. -/
+def sFromCoefficientsVec (v : Terms F) : Terms F :=
+  (combineTerms [] (sortTerms v)).filter (fun t => !decide (t.2 = 0))
 
 /-- number of bits of `d` (`0usize.leading_zeros() - d.leading_zeros()`) -/
 def bitLen (d : Nat) : Nat := if d = 0 then 0 else Nat.log2 d + 1
@@ -334,20 +335,18 @@ def sAdd (s t : Terms F) : Outcome (Terms F) :=
 /-- `Sparse += &Sparse`: `self.coeffs = (self.clone() + other.clone()).coeffs` -/
 def sAddAssign (s t : Terms F) : Outcome (Terms F) := sAdd s t
 
-/-- `Sparse += (f, &Sparse)`: adds first, then scales *every* coefficient by `f` -/
-def sAddAssignScaled (s : Terms F) (f : F) (t : Terms F) : Outcome (Terms F) := do
-  let r ← sAdd s t
-  pure (r.map (fun u => (u.1, u.2 * f)))
-
 /-- `Neg for SparsePolynomial` -/
 def sNeg (s : Terms F) : Terms F := s.map (fun u => (u.1, -u.2))
-
-/-- `Sparse -= &Sparse`: `self.coeffs = ((-self.clone()) + other.clone()).coeffs` -/
-def sSubAssign (s t : Terms F) : Outcome (Terms F) := sAdd (sNeg s) t
 
 /-- `&Sparse * F` -/
 def sScale (s : Terms F) (f : F) : Terms F :=
   if sIsZero s || decide (f = 0) then [] else s.map (fun u => (u.1, u.2 * f))
+
+/-- `Sparse += (f, &Sparse)`: `self.coeffs = (self.clone() + (other * f)).coeffs` -/
+def sAddAssignScaled (s : Terms F) (f : F) (t : Terms F) : Outcome (Terms F) := sAdd s (sScale t f)
+
+/-- `Sparse -= &Sparse`: `self.coeffs = (self.clone() + (-other.clone())).coeffs` -/
+def sSubAssign (s t : Terms F) : Outcome (Terms F) := sAdd s (sNeg t)
 
 /-- `BTreeMap::entry(k).and_modify(|c| *c += v).or_insert(v)` on the sorted association list -/
 def btAdd (k : Nat) (v : F) : Terms F → Terms F
@@ -358,8 +357,8 @@ def btAdd (k : Nat) (v : F) : Terms F → Terms F
     else (k', v') :: btAdd k v m
 
 /-- `SparsePolynomial::mul` -/
-def sMul (s t : Terms F) : Outcome (Terms F) :=
-  if sIsZero s || sIsZero t then .ok []
+def sMul (s t : Terms F) : Terms F :=
+  if sIsZero s || sIsZero t then []
   else
     let m := s.foldl (fun m a => t.foldl (fun m b => btAdd (a.1 + b.1) (a.2 * b.2) m) m) []
     sFromCoefficientsVec m
@@ -376,7 +375,7 @@ def nonzeroTerms : List F → Nat → Terms F
   | c :: cs, i => if c = 0 then nonzeroTerms cs (i + 1) else (i, c) :: nonzeroTerms cs (i + 1)
 
 /-- `From<DensePolynomial> for SparsePolynomial` -/
-def denseToSparse (a : List F) : Outcome (Terms F) := sFromCoefficientsVec (nonzeroTerms a 0)
+def denseToSparse (a : List F) : Terms F := sFromCoefficientsVec (nonzeroTerms a 0)
 
 /-! ## mixed dense / sparse operators -/
 
@@ -408,38 +407,22 @@ def addAssignDS (a : List F) (s : Terms F) : Outcome (List F) :=
       if t.1 ≤ lhs then modifyAt (fun c => c + t.2) r t.1 else modifyAt (fun _ => t.2) r t.1) s a'
     pure (truncate r)
 
-/-- the common loop of `&Dense - &Sparse` and `Dense -= &Sparse`: `degree()` of the
-    *partially updated* left operand is re-evaluated for every term (twice in the `else`
-    branch), and nothing is truncated afterwards -/
-def subSparseLoop (a : List F) (s : Terms F) : Outcome (List F) := do
-  let ds ← sDegree s
-  let da ← degree a
-  let upper : List F := if ds > da then List.replicate (ds - da) 0 else []
-  let (r, up) ← foldTerms (fun (st : List F × List F) t => do
-      let d ← degree st.1
-      if t.1 ≤ d then
-        let r' ← modifyAt (fun c => c - t.2) st.1 t.1
-        pure (r', st.2)
-      else
-        let d' ← degree st.1
-        let up' ← modifyAt (fun _ => -t.2) st.2 (t.1 - d' - 1)
-        pure (st.1, up')) s (a, upper)
-  pure (r ++ up)
+/-- the common loop of `&Dense - &Sparse` and `Dense -= &Sparse`: subtract in place when the
+    power is inside the vector (`get_mut`), otherwise `resize(pow, 0)` and push `-coeff` -/
+def subSparseLoop (a : List F) (s : Terms F) : List F :=
+  s.foldl (fun (r : List F) t =>
+    match modifyAt (fun c => c - t.2) r t.1 with
+    | .ok r' => r'                                   -- `get_mut(pow)` is Some
+    | .panic => resize r t.1 ++ [-t.2]) a            -- `resize(pow, zero)`, `push(-coeff)`
 
-/-- `&Dense - &Sparse` -/
+/-- `&Dense - &Sparse` — the zero-`other` branch returns `self.clone()` untruncated -/
 def subDS (a : List F) (s : Terms F) : Outcome (List F) :=
   if isZero a then sparseToDense (sNeg s)
   else if sIsZero s then .ok a
-  else subSparseLoop a s
+  else .ok (truncate (subSparseLoop a s))
 
-/-- `Dense -= &Sparse` — zero `self`: `resize(other.degree() + 1)` then overwrite, no truncation
-    (zero −= zero leaves `[0]`) -/
-def subAssignDS (a : List F) (s : Terms F) : Outcome (List F) :=
-  if isZero a then do
-    let d ← sDegree s
-    foldTerms (fun (r : List F) t => modifyAt (fun _ => -t.2) r t.1) s (List.replicate (d + 1) 0)
-  else if sIsZero s then .ok a
-  else subSparseLoop a s
+/-- `Dense -= &Sparse`: no special cases, loop then truncate -/
+def subAssignDS (a : List F) (s : Terms F) : List F := truncate (subSparseLoop a s)
 
 /-! ## DenseOrSparsePolynomial -/
 
@@ -476,10 +459,9 @@ def DoS.toDense : DoS F → Outcome (List F)
 
 /-- the `while` loop of `divide_with_q_and_r`.  Over a field, and with a divisor whose last stored
     term really is its leading term, every iteration shortens the remainder, so
-    `fuel = remainder.len() + 1` is never exhausted.  With a sparse divisor that stores its top
-    degree twice (possible: `from_coefficients_vec` does not merge equal degrees) the leading term
-    is not cancelled and the Rust loop does not terminate; the model then runs out of fuel and
-    returns the current state — such inputs cannot be part of the correspondence stream. -/
+    `fuel = remainder.len() + 1` is never exhausted.  (A sparse divisor storing its top degree
+    twice would make the Rust loop spin forever — the model would run out of fuel — but
+    `from_coefficients_vec` now merges equal degrees, so no public constructor produces one.) -/
 def divLoop (db : Nat) (inv : F) (bterms : Terms F) : Nat → List F → List F → Outcome (List F × List F)
   | 0, q, r => .ok (q, r)
   | fuel + 1, q, r =>
@@ -541,9 +523,12 @@ def elementsAux (g : F) : Nat → F → List F
 /-- `domain.elements()`: `offset, offset·g, offset·g², …` -/
 def Domain.elements (D : Domain F) : List F := elementsAux D.gen D.size D.offset
 
+/-- `domain.coset_offset_pow_size()`: `offset.pow([size])` (`get_coset`), `1` for a subgroup -/
+def Domain.offsetPowSize (D : Domain F) : F := pow D.offset D.size
+
 /-- `domain.vanishing_polynomial()`: `from_coefficients_vec([(0, −offset^size), (size, 1)])` -/
-def Domain.vanishingPolynomial (D : Domain F) : Outcome (Terms F) :=
-  sFromCoefficientsVec [(0, -(pow D.offset D.size)), (D.size, 1)]
+def Domain.vanishingPolynomial (D : Domain F) : Terms F :=
+  sFromCoefficientsVec [(0, -D.offsetPowSize), (D.size, 1)]
 
 /-- `fft_in_place` (radix-2): degree-aware path keeps the vector, otherwise `resize(size)`;
     then the (coset) FFT, which by C07 is evaluation at the domain elements -/
